@@ -133,8 +133,20 @@ def insertStr (k : List Nat) : List (List Nat) → List (List Nat)
   | [] => [k]
   | x :: r => if k == x then x :: r else if ltStr k x then k :: x :: r else x :: insertStr k r
 
+/-- `Font.Differences` as the Go map prints when sorted by code: `code>rune;…` (hex), `~` = empty -/
+def diffsOut (ds : FontDecode.Diffs) : String :=
+  let es := (List.range 256).filterMap fun b => (FontDecode.diffLookup ds b).map fun r => s!"{hexNat b}>{hexNat r}"
+  if es.isEmpty then "~" else ";".intercalate es
+
+/-- the `code>rune;…` field of `c07.font` as a map history (first pair = newest; codes are distinct) -/
+def diffs? (s : String) : Option FontDecode.Diffs :=
+  if s == "~" then some [] else
+  (s.splitOn ";").mapM fun e => match e.splitOn ">" with
+    | [c, r] => do let c ← hexNat? c; let r ← hexNat? r; pure (c, some r)
+    | _ => none
+
 def fontLine (k : List Nat) (f : FontDecode.Font) : String :=
-  s!"{hexOut k}={hexOut f.encoding}:{if f.toUnicode.isSome then "T" else "F"}"
+  s!"{hexOut k}={hexOut f.encoding}:{if f.toUnicode.isSome then "T" else "F"}:{diffsOut f.differences}"
 
 def optScalars : Option (List Nat) → String
   | some l => "ok " ++ scalars l
@@ -177,16 +189,19 @@ def handle (op : String) (args : List String) : String :=
     | _, _, _ => "bad-op"
   | "c07.lookup", [p, c] => match unhexN p, c.toNat? with
     | some p, some c => scalars (lookup (parseCMapData p) c) | _, _ => "bad-op"
-  | "c07.font", [p, n, d, t] =>
-    match (if p == "~" then some none else (unhexN p).map some), unhexN n, unhexN d, nfcTable? t with
-    | some p, some n, some d, some tbl =>
-      let f : Font := ⟨p.map parseCMapData, n⟩
+  | "c07.glyph", [n] => match unhexN n with
+    | some n => (match GlyphNames.glyphRune n with | some r => hexNat r | none => "-")
+    | none => "bad-op"
+  | "c07.font", [p, n, ds, d, t] =>
+    match (if p == "~" then some none else (unhexN p).map some), unhexN n, diffs? ds, unhexN d, nfcTable? t with
+    | some p, some n, some ds, some d, some tbl =>
+      let f : Font := ⟨p.map parseCMapData, n, ds⟩
       (match preNFC f d with
        | none => "model-err"
        | some pre => match tbl.find? (fun e => e.1 == pre) with
          | some e => scalars e.2
          | none => "nfc-missing " ++ scalars pre)
-    | _, _, _, _ => "bad-op"
+    | _, _, _, _, _ => "bad-op"
   | "c07.nofont", [d, t] => match unhexN d, nfcTable? t with
     | some d, some tbl =>
       let pre := showTextNoFontPre d
@@ -235,7 +250,7 @@ def handle (op : String) (args : List String) : String :=
             let m3 := FormFonts.registerFonts res rd FormFonts.FontMap.empty
             let cands := (fd.map (·.1) ++ fd.map (fun kv => 47 :: kv.1)).foldl (fun acc k => insertStr k acc) []
             let same := cands.all fun k =>
-              let d := fun (f : Option FontDecode.Font) => f.map fun f => (f.encoding, f.toUnicode.isSome)
+              let d := fun (f : Option FontDecode.Font) => f.map fun f => (f.encoding, f.toUnicode.isSome, diffsOut f.differences)
               d (m1 k) == d (m2 k) && d (m1 k) == d (m3 k)
             if !same then "order-dependent" else
             let ls := cands.filterMap fun k => (m1 k).map (fontLine k)
